@@ -1821,6 +1821,14 @@ func main() {
 		fmt.Fprintf(&b, "  | %s\n", leanIdent(l))
 	}
 	fmt.Fprintf(&b, "  deriving DecidableEq, Repr\n\n")
+	fmt.Fprintf(&b, "/-- every mutex of the table (for expectations that quantify over the locks instead of naming them) -/\ndef Lock.all : List Lock := [")
+	for i, l := range locks {
+		if i > 0 {
+			fmt.Fprintf(&b, ", ")
+		}
+		fmt.Fprintf(&b, ".%s", leanIdent(l))
+	}
+	fmt.Fprintf(&b, "]\n\n")
 	boolS := func(x bool) string {
 		if x {
 			return "true"
